@@ -18,6 +18,7 @@ _HS_ALPHA = "{0 1 9 SP k M G T P E B x}"
 CHECKS = {
     "C16": dict(
         promote=True,   # thorough bounds cost seconds: used for the quick tier as well
+        deep=True,      # the thorough tier adds --deep (see bounds)
         level="exploration",
         runs=[
             dict(name="int", target="h_parsenum", args=["--part", "int"]),
@@ -43,7 +44,10 @@ CHECKS = {
                    "numerals x 42 suffixes; humansize: every representable value v (v-1,v,v+1,midpoint), 2^64-1, all sizes 0..200000"
                    % (_INT_ALPHA, _FLT_ALPHA, _HS_ALPHA)),
             thorough=("as quick with integer strings of length <=6, float strings of length <=6, humansize_parse strings of length <=7, "
-                      "humansize sizes 0..3000000"),
+                      "humansize sizes 0..3000000. The thorough tier (--deep) goes beyond that: integer alphabet %s plus X and F "
+                      "(15 symbols: upper-case hex prefix and digit) of length <=6; float strings of length <=7 (first length with a complete "
+                      "hex float such as 0x1.8p1); humansize_parse strings of length <=8; humansize sizes 0..30000000; boundary numerals unchanged"
+                      % _INT_ALPHA),
         ),
         assumptions=[
             "\"C\" locale; glibc's strtoimax/strtoumax/strtod are part of the system under test (called by parsenum.h)",
@@ -57,8 +61,9 @@ CHECKS = {
 CLAIMS = {
     "C16": dict(
         text=("Bounded exhaustive input enumeration: every string over a 13-character integer alphabet (white space, signs, digits of "
-              "several bases, prefix letter, junk) up to length 5/6, every string over a 14-character float alphabet up to length 5/6 "
-              "and every string over a 12-character size alphabet up to length 5/7 is parsed by the real macros/functions for every "
+              "several bases, prefix letter, junk; 15 characters with upper-case X and F in the thorough tier) up to length 6, every string "
+              "over a 14-character float alphabet up to length 6 (quick tier) / 7 (thorough tier) "
+              "and every string over a 12-character size alphabet up to length 7 / 8 is parsed by the real macros/functions for every "
               "integer width and signedness, float and double, 7-9 bounds forms (type limits, inside, negative, empty, beyond the type), "
               "6 bases and both trailing flags, plus generated numerals at every type limit and bound +-1 in all bases 2..36, and compared "
               "with an independent grammar parser that computes values exactly in 128-bit / big-integer arithmetic.  humansize() is "
